@@ -250,15 +250,16 @@ def growTargets (o : Stoch) (x : Desc) : List Desc :=
   | none => (compatibleIds (o.repeatBonds.map Prod3.d) (some x)).flatMap (entrySibs o)
   | some l => ((List.range l.length).filter fun c => decide (0 < l.getD c 0 / x.weight)).flatMap (entrySibs o)
 
-/-- least fixed point of `growTargets` from the start classes (fuel: one more than the number of descriptors) -/
-def closeR (o : Stoch) : Nat → List Desc → List Desc
+/-- least fixed point: the classes that become open when the object grows from the start classes `R0` or from classes found so far
+(fuel: one more than the number of descriptors) -/
+def closeR (o : Stoch) (R0 : List Desc) : Nat → List Desc → List Desc
   | 0, R => R
   | f + 1, R =>
-    let R' := addClasses R (R.flatMap (growTargets o))
-    if R'.length == R.length then R else closeR o f R'
+    let R' := addClasses R ((R0 ++ R).flatMap (growTargets o))
+    if R'.length == R.length then R else closeR o R0 f R'
 
 def guessStoch (o : Stoch) (inc : Option Desc) : ElemCert :=
-  let R := closeR o (o.repeatBonds.length + o.endBonds.length + 2) (addClasses [] (startClasses o inc))
+  let R := closeR o (startClasses o inc) (o.repeatBonds.length + o.endBonds.length + 2) []
   let inv : Option Desc := if o.right.sym = .none then none else some (invertTerminal o.right)
   let m1 : Mode := { inv := inv, chain := true }
   if inv.isSome && decide (StochOK o m1 R inc) then (m1, R) else ({ inv := inv, chain := false }, R)
